@@ -48,7 +48,8 @@ def as_z3_bool(c):
 
 def close(a, b, rel=1e-9):
     """a == b up to relative tolerance (needed where the code multiplies by inexact float constants)."""
-    a, b = lift(a), lift(b)
+    a = a if z3.is_expr(a) else lift(a)
+    b = b if z3.is_expr(b) else lift(b)
     d = a - b
     m = z3.If(a >= 0, a, -a) + z3.If(b >= 0, b, -b)
     tol = z3.RealVal(str(rel))
